@@ -592,7 +592,23 @@ common::register! {
     t_nack_readd = nack_readd => 2,
 }
 
+/// The same, stated directly on the bytes of one builder (half the container work of
+/// `fir_readd`): after `add_ssrc(x, s1).add_ssrc(x, s2)` the one entry written is `(x, s2)`.
+pub fn fir_readd_last<S: Src>(s: &mut S) {
+    let ssrc = 0x1234_5678u32;
+    let (s1, s2) = (s.u8(), s.u8());
+    let x = Fir::builder().add_ssrc(ssrc, s1).add_ssrc(ssrc, s2);
+    let mut p = [0x5Au8; 12];
+    let r = x.write_into(&mut p);
+    assert!(r == Ok(8), "re-adding an SSRC must not add an entry");
+    assert!(p[0] == 0x12 && p[1] == 0x34 && p[2] == 0x56 && p[3] == 0x78);
+    assert!(p[4] == s2, "re-adding a FIR SSRC must keep the last sequence");
+    vcover!(s1 != s2, "sequence replaced");
+    forget(x);
+}
+
 common::register_hashmap! {
+    q_fir_readd_last = fir_readd_last => 4,
     t_fir_readd = fir_readd::<_, false> => 4,
     t_fir_readd_any_ssrc = fir_readd::<_, true> => 4,
 }
